@@ -137,7 +137,7 @@ structure SnkDrv where
 def SrcDrv.deliver (d1 : SrcDrv) (blk : List (BitVec 8)) (m : Nat) : Res (Nat × SrcDrv × List (BitVec 8)) :=
   let moved := min m d1.stream.length
   if blk.length < moved then .oob
-  else .val (moved, { d1 with stream := d1.stream.drop moved }, d1.stream.take moved ++ blk.drop moved)
+  else .val (moved, { d1 with stream := d1.stream.drop m }, d1.stream.take m ++ blk.drop moved)
 
 /-- `ssize_t (*ChunkSource)(void *driver, void *buf, size_t n)` -/
 def drvSrcChunk (d : SrcDrv) (blk : List (BitVec 8)) (n : BitVec 64) : Res (BitVec 64 × SrcDrv × List (BitVec 8)) :=
